@@ -6,6 +6,7 @@ import Orda.Codec
 import Orda.Model.Api
 import Orda.Spec.Denote
 import Orda.Model.Server
+import Orda.Model.Patch
 open Lean
 namespace Orda
 
@@ -407,6 +408,24 @@ def Sim.step (s : Sim) (j : Json) : Sim × Json :=
          Json.mkObj [("err", jnat errc), ("kind", Json.str kind), ("value", (d.viewAt c).toJson)])
       | none => (s, Json.mkObj [("err", jnat errc), ("kind", Json.null), ("value", Json.null)])
     | _ => (s, Json.mkObj [("bad", Json.bool true)])
+  | "pjson" =>
+    let i := getN j "r"
+    let (r', ops, o) := s.reps[i]!.patchByJSON (JVal.ofJson (getJ j "json"))
+    let s1 := { s with reps := s.reps.set! i r' }
+    let (s2, p) := s1.post i
+    let pj (op : PatchOp) : Json := match op with
+      | .add pth v => Json.mkObj [("op", "add"), ("path", listJ Json.str pth), ("value", v.toJson)]
+      | .remove pth => Json.mkObj [("op", "remove"), ("path", listJ Json.str pth)]
+      | .replace pth v => Json.mkObj [("op", "replace"), ("path", listJ Json.str pth), ("value", v.toJson)]
+    (s2, Json.mkObj ([("patch", listJ pj ops)] ++ outcomeErr o ++ p))
+  | "jdiff" =>
+    let ops := jsonDiff (JVal.ofJson (getJ j "src")).canon (JVal.ofJson (getJ j "tgt")).canon
+    let pj (op : PatchOp) : Json := match op with
+      | .add pth v => Json.mkObj [("op", "add"), ("path", listJ Json.str pth), ("value", v.toJson)]
+      | .remove pth => Json.mkObj [("op", "remove"), ("path", listJ Json.str pth)]
+      | .replace pth v => Json.mkObj [("op", "replace"), ("path", listJ Json.str pth), ("value", v.toJson)]
+    let applied := applyPatch ops (JVal.ofJson (getJ j "src")).canon
+    (s, Json.mkObj [("patch", listJ pj ops), ("applied", optJ JVal.toJson applied)])
   | "hash" =>
     match getA j "ts" with
     | [e, l, c, d] =>
